@@ -52,4 +52,19 @@ PROPS = {
         "trusted_base": COMMON_TB + ["modelled, not verified: time.rs (truncate_submicrosecond_walltime, is_after_or_eq_any, complete_with, destructure), "
                                      "time/complex.rs (Add/Sub impls, system_time_conversion), storage.rs (get_time/set_time)"],
     },
+    "C15": {
+        "run": ["EvalC15"],
+        "n": {"quick": 400, "thorough": 8000},
+        "level_text": "The request encoder (builder fold, AppEntry conversion, serde field order/skip rules, headers) is a Gallina function; theorems: the "
+                      "fold over add_update_check/add_ping/add_event equals the declarative spec (apps once each in first-insertion order keeping the first "
+                      "insertion's app data, flags/ping/events as the property says), building is a pure function of the builder.  The real RequestBuilder's "
+                      "bytes are compared with the model's printed body byte for byte, and the model's JSON parser must read the real body back to the model tree.",
+        "level_note": "Proved for the model; model = code sampled (random configs, params, op lists with repeated ids and differing cohorts, escapes, non-ASCII). "
+                      "HashMap iteration order of extra_fields is taken from the real map (oracle). http::Uri rendering of the service URL is an oracle.",
+        "diff_meaning": "The model's output is the spec's output (theorem C15_build_refines_spec); a request on which the real RequestBuilder's method/URI/headers/body differ is a wire-shape violation.",
+        "rule": "random config (names incl. header-unsafe ones), params (16 combos), 1-4 app ids each with 1-2 variants (differing cohort/version/extras), 0-8 ops; "
+                "distinct = distinct input; non-trivial = at least one op",
+        "assumptions": ["serde_json compact printer escaping rules as modelled in Model/Json.v", "http lower-cases header names"],
+        "trusted_base": COMMON_TB + ["modelled, not verified: request_builder.rs, protocol/request.rs serde derives, version Display"],
+    },
 }
